@@ -60,27 +60,17 @@ func c14ResolveContainers(p *Prog) []c14Container {
 				continue
 			}
 			seenType[key] = true
-			st, ok := n.Underlying().(*types.Struct)
-			if !ok {
+			if _, ok := n.Underlying().(*types.Struct); !ok {
 				undecided("anchor %s.%s: %s is not a struct", a.rel, a.name, key)
 			}
+			// roles are searched through nested sub-structs (by value, by
+			// pointer, embedded): the mutex and the state may live in a
+			// grouped sub-struct of the same package
 			var locks []string
 			var fields []FieldID
-			for i := 0; i < st.NumFields(); i++ {
-				f := st.Field(i)
-				ft := f.Type()
-				if pt, ok := ft.Underlying().(*types.Pointer); ok {
-					ft = pt.Elem()
-				}
-				switch namedKey(ft) {
-				case "sync.RWMutex", "sync.Mutex":
-					locks = append(locks, key+"."+f.Name())
-				default:
-					fields = append(fields, FieldID{key, f.Name()})
-				}
-			}
+			c14Leaves(n, pkg.Types, map[string]bool{}, &locks, &fields)
 			if len(locks) != 1 {
-				undecided("container %s has %d mutex fields: the guarding lock cannot be resolved by role", key, len(locks))
+				undecided("container %s has %d mutex fields (nested structs included): the guarding lock cannot be resolved by role", key, len(locks))
 			}
 			if len(fields) == 0 {
 				undecided("container %s has no state field", key)
@@ -89,6 +79,52 @@ func c14ResolveContainers(p *Prog) []c14Container {
 		}
 	}
 	return out
+}
+
+// c14Leaves walks the fields of struct type n: a sync.(RW)Mutex field (or a
+// pointer to one) is a lock, a field whose type is a named struct of the same
+// package (by value or by pointer, embedded or not) is descended into — a
+// pointer field additionally counts as state itself —, an anonymous struct is
+// not resolved, everything else is state. Identities are (type that declares
+// the field, field name), which is what the lockset engine and the access
+// enumeration produce for x.sub.f.
+func c14Leaves(n *types.Named, pkg *types.Package, seen map[string]bool, locks *[]string, fields *[]FieldID) {
+	key := namedKey(n)
+	if seen[key] {
+		return
+	}
+	seen[key] = true
+	st, ok := n.Underlying().(*types.Struct)
+	if !ok {
+		return
+	}
+	for i := 0; i < st.NumFields(); i++ {
+		f := st.Field(i)
+		ft := f.Type()
+		isPtr := false
+		if pt, ok := ft.Underlying().(*types.Pointer); ok {
+			ft, isPtr = pt.Elem(), true
+		}
+		switch namedKey(ft) {
+		case "sync.RWMutex", "sync.Mutex":
+			*locks = append(*locks, key+"."+f.Name())
+			continue
+		}
+		ft = types.Unalias(ft)
+		if sub, ok := ft.(*types.Named); ok && sub.Obj().Pkg() == pkg {
+			if _, isStruct := sub.Underlying().(*types.Struct); isStruct {
+				if isPtr {
+					*fields = append(*fields, FieldID{key, f.Name()})
+				}
+				c14Leaves(sub.Origin(), pkg, seen, locks, fields)
+				continue
+			}
+		}
+		if _, anon := ft.(*types.Struct); anon {
+			undecided("container %s groups state in an anonymous struct field %s: roles are not resolved through unnamed structs", key, f.Name())
+		}
+		*fields = append(*fields, FieldID{key, f.Name()})
+	}
 }
 
 // c14ConstructedTypes: named struct types (of package pkg) whose pointer a
@@ -140,8 +176,17 @@ func c14ConstructedTypes(p *Prog, fn *ssa.Function, pkg *types.Package, seen map
 
 func c14SpecsOf(cs []c14Container) []GuardSpec {
 	var specs []GuardSpec
+	seen := map[FieldID]string{}
 	for _, c := range cs {
 		for _, f := range c.Fields {
+			// two containers may share a grouped sub-struct
+			if l, dup := seen[f]; dup {
+				if l != c.Lock {
+					undecided("field %s is guarded by %s in one container and by %s in another", f, l, c.Lock)
+				}
+				continue
+			}
+			seen[f] = c.Lock
 			specs = append(specs, GuardSpec{Field: f, Lock: c.Lock})
 		}
 	}
@@ -578,4 +623,161 @@ func c14DropImmutable(p *Prog, specs []GuardSpec) (kept []GuardSpec, dropped []s
 		}
 	}
 	return kept, dropped
+}
+
+// c14AliasWrites: a guarded map/slice handed to a callee as an ARGUMENT is
+// still the guarded state. When the targets of the call are visible (a static
+// callee, or a callback parameter whose closures are passed at the call sites
+// of the enclosing helper) and one of them writes through that parameter
+// (map update, delete, clear, element store — directly or by passing it on),
+// the call needs the lock in write mode. This keeps a `locked(fn)` wrapper
+// that takes only the read lock for a writing callback from going unnoticed.
+func c14AliasWrites(p *Prog, e *LockEngine, r *Report, rule string, specs []GuardSpec) {
+	byField := map[FieldID]*GuardSpec{}
+	for i := range specs {
+		byField[specs[i].Field] = &specs[i]
+	}
+	sites := map[*ssa.Function][]ssa.CallInstruction{}
+	for _, fn := range p.Funcs {
+		allInstrs(fn, func(in ssa.Instruction) {
+			if ci, ok := in.(ssa.CallInstruction); ok {
+				if cal := staticCallee(ci); cal != nil {
+					sites[cal] = append(sites[cal], ci)
+				}
+			}
+		})
+	}
+	var writes func(fn *ssa.Function, idx, depth int) bool
+	var valueWritten func(v ssa.Value, depth int, seen map[ssa.Value]bool) bool
+	targetsOf := func(ci ssa.CallInstruction) []*ssa.Function {
+		if cal := staticCallee(ci); cal != nil {
+			return []*ssa.Function{cal}
+		}
+		cc := ci.Common()
+		if cc.IsInvoke() {
+			return nil
+		}
+		pa, ok := cc.Value.(*ssa.Parameter)
+		if !ok {
+			return nil
+		}
+		g := pa.Parent()
+		pi := -1
+		for i, q := range g.Params {
+			if q == pa {
+				pi = i
+			}
+		}
+		var out []*ssa.Function
+		for _, s := range sites[origin(g)] {
+			args := s.Common().Args
+			if pi < 0 || pi >= len(args) {
+				return nil
+			}
+			switch a := args[pi].(type) {
+			case *ssa.MakeClosure:
+				if f, ok := a.Fn.(*ssa.Function); ok {
+					out = append(out, origin(f))
+				}
+			case *ssa.Function:
+				out = append(out, origin(a))
+			default:
+				return nil
+			}
+		}
+		return out
+	}
+	valueWritten = func(v ssa.Value, depth int, seen map[ssa.Value]bool) bool {
+		if seen[v] || depth > 4 {
+			return false
+		}
+		seen[v] = true
+		for _, ref := range refs(v) {
+			switch x := ref.(type) {
+			case *ssa.MapUpdate:
+				if x.Map == v {
+					return true
+				}
+			case *ssa.IndexAddr:
+				if x.X == v {
+					for _, rr := range refs(x) {
+						if st, ok := rr.(*ssa.Store); ok && st.Addr == ssa.Value(x) {
+							return true
+						}
+					}
+				}
+			case *ssa.Phi, *ssa.ChangeType:
+				if valueWritten(x.(ssa.Value), depth, seen) {
+					return true
+				}
+			case ssa.CallInstruction:
+				switch builtinName(x) {
+				case "delete", "clear":
+					if args := x.Common().Args; len(args) > 0 && args[0] == v {
+						return true
+					}
+					continue
+				case "copy":
+					if args := x.Common().Args; len(args) == 2 && args[0] == v {
+						return true
+					}
+					continue
+				case "":
+				default:
+					continue
+				}
+				for ai, a := range x.Common().Args {
+					if a != v {
+						continue
+					}
+					for _, t := range targetsOf(x) {
+						if p.funcSet[t] && writes(t, ai, depth+1) {
+							return true
+						}
+					}
+				}
+			}
+		}
+		return false
+	}
+	writes = func(fn *ssa.Function, idx, depth int) bool {
+		if idx >= len(fn.Params) || len(fn.Blocks) == 0 {
+			return false
+		}
+		return valueWritten(fn.Params[idx], depth, map[ssa.Value]bool{})
+	}
+	for _, fn := range p.Funcs {
+		allInstrs(fn, func(in ssa.Instruction) {
+			ci, ok := in.(ssa.CallInstruction)
+			if !ok || builtinName(ci) != "" || !e.Reachable(in) {
+				return
+			}
+			for ai, a := range ci.Common().Args {
+				id, _, isField := fieldOfValue(a)
+				spec := byField[id]
+				if !isField || spec == nil {
+					continue
+				}
+				if _, isAddr := a.(*ssa.FieldAddr); isAddr {
+					continue
+				}
+				if fa, ok := a.(*ssa.UnOp); ok {
+					if base, ok := fa.X.(*ssa.FieldAddr); ok && isFreshBase(base.X) {
+						continue
+					}
+				}
+				for _, t := range targetsOf(ci) {
+					if !p.funcSet[t] || !writes(t, ai, 0) {
+						continue
+					}
+					construct := FuncName(p, fn) + " -> " + id.String() + " (written by callee " + t.Name() + ")"
+					if held := e.At(in)[spec.Lock]; held < ModeW {
+						r.Violation(rule, construct, p.Pos(instrPos(in)), fmt.Sprintf("%s is handed to %s, which writes it, while %s is held in mode %s (needs W)", id, FuncName(p, t), shortID(spec.Lock), held))
+					} else {
+						r.OK(rule, construct, p.Pos(instrPos(in)), "the callee writes the guarded state under the write lock")
+					}
+				}
+			}
+		})
+	}
 }
